@@ -69,17 +69,7 @@ def top_goja(side):
 
 
 # ---------------------------------------------------------------------------------------------
-# known-finding predicates.  F14 and C16-N1 are fixed: ANY race report is a violation now.
-
-def pred_n2(case, record, expected_text):
-    """open finding C16-N2: exactly the direct-argument path with a foreign Object, observed 'accepted'"""
-    x = (case or {}).get("xrt") or {}
-    if case.get("kind") != "xrt" or x.get("path") != "callarg":
-        return False
-    if x.get("obj") not in ("object", "array", "func", "date", "proxy"):
-        return False
-    return (record or {}).get("obs", "").startswith("accepted")
-
+# no open findings: F14, C16-N1, C16-N2 are fixed; ANY race report / mismatch is a violation.
 
 RACE_PREDS = {}
 
@@ -192,12 +182,12 @@ CFG = {
              "redefinition/freeze, classes with private names, eval/with dynamic scopes, folded constants, closures, generators/async, "
              "stack traces) compiled once and run 1..2 times by each of 2..16 goroutines with their own Runtime; vals: 3..11 shared "
              "primitive values (unscanned imported strings > 16 bytes, concatenations, substrings, symbols, numbers, StringFromUTF16) "
-             "used by 2..16 runtimes through a shared ops Program and the Go API; xrt: an Object of runtime A given to runtime B through Set/ToValue/Object.Set/NewArray/a Go function result/a direct Callable argument; "
+             "used by 2..16 runtimes through a shared ops Program and the Go API; xrt: an Object of runtime A given to runtime B through Set/ToValue/Object.Set/NewArray/a Go function result/a direct Callable argument or this/Runtime.New arguments; "
              "non-trivial = program ran without a top-level error on >= 2 goroutines / an unscanned imported string or > 2 values were "
              "shared / a foreign object was offered; distinct = by hash of the case"),
     "theorem_names": ["readonly_no_race", "program_run_readonly", "race_free_shared_program", "primitive_share",
                       "guarded_no_race", "imported_race_free", "sharing_race_free", "cross_runtime_object_rejected",
-                      "call_arg_refuted", "unsynchronised_access_races"],
+                      "call_arg_agrees", "unsynchronised_access_races"],
     "allowed_axioms": [],
     "trusted_base": [
         "Coq 8.16.1 kernel + vm_compute; theorems closed under the global context (no axioms)",
@@ -211,7 +201,7 @@ CFG = {
         "the race detector only sees the schedules and code paths that were executed",
         "sequential equivalence is checked on generated programs/values only",
     ],
-    "predicates": {"C16.foreign_object_as_call_argument": pred_n2},
+    "predicates": {},
     "stages": [vcheck.correspondence, race_stage],
     "manifest": {
         "text": ("partial: an interleaving model (threads = event lists over owned/shared locations; happens-before = program order + "
